@@ -20,11 +20,14 @@ open TIV.Prog
 inductive Exc
   | stopIteration | attributeError | valueError | sizeError | stopDefinite | finalizedIter
   | boom | keyboardInterrupt | ret | brk | diverge
+  /-- further classes a frame render (a stream, a padding) may raise: a `ValueError` subclass, other
+      built-in `Exception`s, and `BaseException`s that are not `Exception`s -/
+  | unicodeError | typeError | keyError | runtimeError | osError | generatorExit | baseBoom
 deriving DecidableEq, Repr, Inhabited
 
 /-- `isinstance(e, Exception)` -/
 def Exc.isException : Exc → Bool
-  | .keyboardInterrupt | .ret | .brk | .diverge => false
+  | .keyboardInterrupt | .ret | .brk | .diverge | .generatorExit | .baseBoom => false
   | _ => true
 
 /-- the Python class of a (real) exception -/
@@ -34,6 +37,16 @@ def excPyName : Exc → String
   | .stopDefinite => "StopDefiniteIterationError" | .finalizedIter => "FinalizedIteratorError"
   | .boom => "Boom" | .keyboardInterrupt => "KeyboardInterrupt"
   | .ret => "Ret" | .brk => "Brk" | .diverge => "Diverge"
+  | .unicodeError => "UnicodeDecodeError" | .typeError => "TypeError" | .keyError => "KeyError"
+  | .runtimeError => "RuntimeError" | .osError => "OSError" | .generatorExit => "GeneratorExit"
+  | .baseBoom => "BaseBoom"
+
+/-- exceptions the code has no special clause for (beyond `Exception` vs `BaseException` and
+    `KeyboardInterrupt`): whatever third-party code may raise -/
+def Exc.generic : Exc → Bool
+  | .boom | .valueError | .unicodeError | .typeError | .keyError | .runtimeError | .osError
+  | .keyboardInterrupt | .generatorExit | .baseBoom => true
+  | _ => false
 
 /-- `cwrite`: the `write("\n")` of `draw`'s own clean-up (`finally`) -/
 inductive Target | render | validate | write | resolve | cwrite | finhook
@@ -193,11 +206,11 @@ abbrev sem : Sem Act World Target := { apply := apply, fapply := apply, target :
 
 /-- what can be injected where -/
 def inj : Target → Exc → Prop
-  | .render, e => e = .boom ∨ e = .stopIteration ∨ e = .keyboardInterrupt ∨ e = .attributeError
+  | .render, e => e.generic = true ∨ e = .stopIteration ∨ e = .attributeError
   | .validate, e => e = .sizeError
-  | .write, e => e = .boom ∨ e = .keyboardInterrupt
-  | .resolve, e => e = .boom
-  | .cwrite, e => e = .boom ∨ e = .keyboardInterrupt
+  | .write, e => e.generic = true
+  | .resolve, e => e.generic = true
+  | .cwrite, e => e.generic = true
   -- a raising `_finalize_render_data_` is outside the property's fault sequences: the programs run it
   -- (driver, correspondence, `finalize_once_even_if_raises`), the history theorems do not inject it
   | .finhook, _ => False
@@ -443,6 +456,37 @@ def drawP (animate checkSize : Bool) (loops : Int) (cache : CacheArg) (bound : N
             (.tryExcept (.do .write) (· == .keyboardInterrupt) fun e => .raise e))
         (.act .writeNl (finalizeP d .lib))
 
+/-! ## data and iterator dying in the same garbage collection -/
+
+/-- `RenderData.__del__`: `try: self.finalize() except AttributeError: pass` (anything else out of a
+    `__del__` is ignored) -/
+def dataDelP (d : Nat) : P :=
+  .tryExcept (if Generated.dataDelCallsFinalize then finalizeP d .del else .do (.finCall d .del))
+    (fun _ => true) fun _ => .done
+
+/-- the caller drops its data and the iterator `i` over it together; the collector runs their
+    finalizers in either order (`dataFirst`: `RenderData.__del__` before `RenderIterator.__del__`) -/
+def dropBothP (d i : Nat) (dataFirst : Bool) : P :=
+  .get fun w =>
+    if i < w.nIters then
+      -- only a *suspended* generator's frame refers back to the iterator and makes the pair a reference
+      -- cycle for the collector to finalize in either order; otherwise reference counting destroys the
+      -- iterator (which refers to the data) first
+      if dataFirst && decide ((w.iters i).ctl.gen = .suspended) && !(w.iters i).closed then
+        .seq (.do (.callerDrop d)) (.seq (dataDelP d) (dropIterP i))
+      else .seq (dropIterP i) (.do (.callerDrop d))
+    else .do (.callerDrop d)
+
+/-- one caller operation: `data = r._get_render_data_(iteration=True); it = RenderIterator.
+    _from_render_data_(r, data, args, finalize=fin); next(it) × n; del it, data`, then the collection -/
+def handoverP (fin : Bool) (args : ArgsKind) (n : Nat) (dataFirst : Bool) : P :=
+  .get fun w =>
+    let d := w.nObjs
+    let i := w.nIters
+    .act (.newData .caller true true) <|
+      .tryFinally (.seq (fromDataP d fin 1 .off args) (Prog.loop n fun _ => nextP i))
+        (dropBothP d i dataFirst)
+
 /-! ## histories -/
 
 inductive Op
@@ -508,7 +552,8 @@ def dropRefs (w : World) : World :=
     objs := fun d =>
       let o := w.objs d
       if d < w.nObjs ∧ !reachable w d ∧ !o.finalized then
-        { o with finalized := true, finCalls := o.finCalls + 1, viaDel := o.viaDel + 1 }
+        -- `RenderData.__del__` is `self.finalize()` (translated from its source): it sets the once-flag
+        { o with finalized := Generated.dataDelCallsFinalize, finCalls := o.finCalls + 1, viaDel := o.viaDel + 1 }
       else o
     trace := w.trace ++
       ((List.range w.nObjs).filter fun d => !reachable w d && !(w.objs d).finalized).map fun d => Ev.fin d .del }
